@@ -171,8 +171,113 @@ def run(ctx):
         r5.ok("get_files_being_transferred filter", "filter(is_transferring)", loc(gb.sp))
     else:
         r5.violation("get_files_being_transferred filter", "filter predicate is not exactly is_transferring()", loc(gb.sp))
-    r3.floor(2, "expiry facts")
+    # the time base of Expires is the `now` of this very publication: get_fdt_instance feeds its own parameter to
+    # system_time_to_ntp, and publish passes its `now` through and records it as last_publish
+    for bb, s in cons:
+        ee = gs.expand(gs.x.operand(s.rv.ops[s.rv.j["fnames"].index("expires")]))
+        ntp = [c for c in walk(ee) if c[0] == "call" and c[1].endswith("system_time_to_ntp")]
+        key = "get_fdt_instance expires time base"
+        if ntp and all(show(c[2][0]) == "now" for c in ntp):
+            r3.ok(key, "system_time_to_ntp(now)", loc(s.sp))
+        else:
+            r3.violation(key, "Expires is based on %s, not on the publication time `now`" % [show(c[2][0], 80) for c in ntp], loc(s.sp))
+    for s in call_sites(pub, lambda p, c: p in (FDT + "::get_fdt_instance", FDT + "::to_xml")):
+        key = "publish -> %s(now)" % s.term.callee_path().split("::")[-1]
+        if show(s.expr[2][-1]) == "now":
+            r3.ok(key, "", s.loc)
+        else:
+            r3.violation(key, "publish passes %s as the publication time" % show(s.expr[2][-1], 60), s.loc)
+    for fn_ in (FDT + "::to_xml",):
+        g_ = prog.funcs.get(fn_)
+        if g_ is not None:
+            for s in call_sites(g_, lambda p, c: p == FDT + "::get_fdt_instance"):
+                key = "to_xml -> get_fdt_instance(now)"
+                if show(s.expr[2][-1]) == "now":
+                    r3.ok(key, "", s.loc)
+                else:
+                    r3.violation(key, "to_xml passes %s as the publication time" % show(s.expr[2][-1], 60), s.loc)
+    lp = [a for a in field_accesses(prog, FDT, "last_publish") if a["kind"] in ("assign", "assign_sub", "borrow_mut")]
+    for a in lp:
+        caller = a["func"].root().path
+        key = "%s writes Fdt.last_publish" % caller.split("::")[-1]
+        if caller == FDT + "::publish" and show(a["value"]) == "Option::Some{0: now}":
+            r3.ok(key, "= Some(now)", loc(a["sp"]))
+        else:
+            r3.violation(key, "last_publish = %s in %s: it must record the `now` of publish()" % (show(a["value"], 60), caller), loc(a["sp"]))
+    r3.floor(5, "expiry facts")
     r5.floor(5, "listing facts")
+
+    # ---- R6 receiver-side extraction -----------------------------------------------------------
+    r6 = ctx.rule("C10.R6", "receiver-side per-file extraction: get_oti_for_file prefers the File element's FEC-OTI over the "
+                            "FDT-Instance's; File::get_transfer_length prefers Transfer-Length over Content-Length over 0; "
+                            "File::get_oti and FdtInstance::get_oti map each FEC-OTI attribute to the same Oti field", "fallback order + sibling agreement")
+    fallback_chain(r6, prog, FDTI + "::get_oti_for_file",
+                   [("File FEC-OTI", r"File::get_oti\(&file\)", r"File::get_oti\(&file\)"),
+                    ("FDT-Instance FEC-OTI", r"FdtInstance::get_oti\(&self\)", r"FdtInstance::get_oti\(&self\)")], "get_oti_for_file")
+    fallback_chain(r6, prog, "common::fdtinstance::File::get_transfer_length",
+                   [("Transfer-Length", r"self\.transfer_length", r"self\.transfer_length$"),
+                    ("Content-Length", r"self\.content_length", r"self\.content_length$"),
+                    ("0", r"^0$", r"^$")], "File::get_transfer_length")
+    maps = {}
+    for fp in ("common::fdtinstance::File::get_oti", FDTI + "::get_oti"):
+        g_ = prog.fn(fp)
+        ctx.analysed(fp)
+        sg = Slicer(g_.body)
+        cons_ = [(blk.i, st) for blk in g_.body.blocks if not blk.cleanup for st in blk.stmts
+                 if st.k == "assign" and st.rv.k == "aggr" and st.rv.j.get("adt") == "common::oti::Oti"]
+        if len(cons_) != 1:
+            raise model.AnchorMissing("%s builds %d Oti values" % (fp, len(cons_)))
+        bb_, st = cons_[0]
+        names_ = st.rv.j["fnames"]
+        m_ = {}
+        for i_, n_ in enumerate(names_):
+            ex_ = sg.expand(sg.x.operand(st.rv.ops[i_]))
+            m_[n_] = (show(ex_, 400), sorted(set(z for z in sg.sources(sg.x.operand(st.rv.ops[i_])) if z.startswith("var:self."))), ex_)
+        maps[fp] = (m_, st)
+
+    def attrs(e):
+        return set(re.sub(r"@.*$", "", show(c)) for c in walk(e) if c[0] == "var" and show(c).startswith("self."))
+    ONE = {"fec_instance_id": "self.fec_oti_fec_instance_id", "maximum_source_block_length": "self.fec_oti_maximum_source_block_length",
+           "encoding_symbol_length": "self.fec_oti_encoding_symbol_length"}
+    DEP = {"fec_encoding_id": "var:self.fec_oti_fec_encoding_id", "scheme_specific": "var:self.fec_oti_scheme_specific_info"}
+    for fp, (m_, st) in sorted(maps.items()):
+        short = "::".join(fp.split("::")[-2:])
+        for n_, want in sorted(ONE.items()):
+            txt, srcs, ex_ = m_[n_]
+            key = "%s Oti.%s" % (short, n_)
+            if attrs(ex_) == {want}:
+                r6.ok(key, txt[:80], loc(st.sp))
+            else:
+                r6.violation(key, "Oti.%s is built from %s; expected exactly the attribute %s" % (n_, txt[:120], want), loc(st.sp))
+        for n_, want in sorted(DEP.items()):
+            txt, srcs, ex_ = m_[n_]
+            key = "%s Oti.%s" % (short, n_)
+            if any(z == want or z.startswith(want + "@") or z.startswith(want + ".") for z in srcs):
+                r6.ok(key, "<- %s" % want[4:], loc(st.sp))
+            else:
+                r6.violation(key, "Oti.%s does not derive from %s (sources %s)" % (n_, want[4:], srcs), loc(st.sp))
+        txt, srcs, ex_ = m_["max_number_of_parity_symbols"]
+        key = "%s Oti.max_number_of_parity_symbols" % short
+        sub = [c for c in walk(ex_) if (c[0] == "call" and re.search(r"::(saturating_sub|wrapping_sub|checked_sub)$", c[1]) and len(c[2]) == 2)
+               or (c[0] == "bin" and c[1].startswith("Sub"))]
+        okp = False
+        for c in sub:
+            l_, r_ = (c[2][0], c[2][1]) if c[0] == "call" else (c[2], c[3])
+            if "self.fec_oti_max_number_of_encoding_symbols" in attrs(l_) and attrs(l_) <= {"self.fec_oti_max_number_of_encoding_symbols", "self.fec_oti_maximum_source_block_length"} \
+                    and attrs(r_) == {"self.fec_oti_maximum_source_block_length"}:
+                okp = True
+        if okp:
+            r6.ok(key, "max encoding symbols (default B) - B", loc(st.sp))
+        else:
+            r6.violation(key, "parity = %s; expected (max_number_of_encoding_symbols or B) - B" % txt[:200], loc(st.sp))
+    a_, b_ = (maps["common::fdtinstance::File::get_oti"][0], maps[FDTI + "::get_oti"][0])
+    for n_ in sorted(a_):
+        key = "File::get_oti / FdtInstance::get_oti agree on Oti.%s" % n_
+        if a_[n_][0] == b_.get(n_, (None,))[0]:
+            r6.ok(key, "", loc(maps[FDTI + "::get_oti"][1].sp))
+        else:
+            r6.violation(key, "File: %s ; FdtInstance: %s" % (a_[n_][0][:100], b_.get(n_, ("?",))[0][:100]), loc(maps[FDTI + "::get_oti"][1].sp))
+    r6.floor(20, "extraction facts")
 
     # ---- R4 ----------------------------------------------------------------------------------
     r4 = ctx.rule("C10.R4", "in Fdt::publish the push to the FDT queue is followed by set_published() on every entry of self.files, "
